@@ -451,11 +451,13 @@ def lowerE : Expr → Nat → Option (Code × Value × Nat)
                        .iteD (.t c) 0 [] [.setDisc (.t (c + 1)) (.opt none), .ret (.t (c + 1))]],
           .cloneProj xe 0 0, c + 2)
   | .record fs, c => do
-    -- `record`: the result temporary is allocated first; each field is lowered and stored
-    -- (lazily, straight into the field) before the next one. The real MIR has no instruction
-    -- that creates the empty record; this untyped model starts from `{}` explicitly.
-    let (cf, c') ← lowerFields fs (.t c) 0 (c + 1)
-    pure ([.setDisc (.t c) (.recd [])] ++ cf, .move (.t c), c')
+    -- `record`: every field lowered and materialised (`assign_to_var`) before the next one,
+    -- like the arguments of an enum constructor (fix bb2b488: an early exit in a later field
+    -- must not find a half-built record among the live variables); then the result temporary
+    -- is allocated and the fields are moved in. The real MIR has no instruction that creates
+    -- the empty record; this untyped model starts from `{}` explicitly.
+    let (ca, xs, c) ← lowerCtorArgs fs c
+    pure (ca ++ [.setDisc (.t c) (.recd [])] ++ storeFields (.t c) 0 xs, .move (.t c), c + 1)
   | .field (.var x) i, c =>
     -- `x.f` is one path (`path_value` with a projection): a lazy read, like a variable
     some ([], .cloneField (.x x) i, c)
@@ -558,7 +560,8 @@ def lowerParts : Parts → Var → Nat → Option (Code × Nat)
     let (cr, c') ← lowerParts rest acc (c + 2)
     pure (ce ++ [.assign (.t c) ve, .assign (.t (c + 1)) (.toStr (.t c)), .assign acc (.append acc (.t (c + 1)))] ++ cr, c')
 
-/-- the arguments of an enum constructor: each lowered, then materialised (`assign_to_var`) -/
+/-- the arguments of an enum constructor / the fields of a record literal, in source order:
+    each lowered, then materialised (`assign_to_var`) -/
 def lowerCtorArgs : Exprs → Nat → Option (Code × List Var × Nat)
   | .nil, c => some ([], [], c)
   | .cons e es, c => do
@@ -601,14 +604,6 @@ def lowerArms : Arms → Var → Nat → Option (List Code × Nat)
     let (cb, xb, c) ← lowerBlock body c
     let (codes, c) ← lowerArms rest out c
     pure ((cb ++ [.assign out (.move xb)]) :: codes, c)
-
-/-- the fields of a record literal, in source order: field `i` lowered, then stored in `to.field_i` -/
-def lowerFields : Exprs → Var → Nat → Nat → Option (Code × Nat)
-  | .nil, _, _, c => some ([], c)
-  | .cons e es, to, i, c => do
-    let (ce, ve, c) ← lowerE e c
-    let (cs, c) ← lowerFields es to (i + 1) c
-    pure (ce ++ [.assignField to i ve] ++ cs, c)
 
 /-- receiver and arguments: each one lowered, then stored in a fresh temporary -/
 def lowerArgs : Exprs → Nat → Option (Code × List Var × Nat)
